@@ -188,4 +188,26 @@ CHECKS = {
            "relations for arbitrary accepted documents."),
   "design_ref": "DESIGN.md §5 C02", "note": _NOTE,
   "technique": "static analysis: reader ASTs evaluated to abstract object graphs that are inspected for ownership/shape invariants; construction-site coverage measured against the syntax tree"},
+ "C10": {
+  "text": ("Translation validation by composing source evaluation with independent interpreters: SPLOTWriter.transform and "
+           "PLWriter.transform (and the dependency's CNF code they reach) are evaluated from source on abstract Boolean "
+           "models covering every relation order type of the well-formed cardinality domain (n<=3) both under the root and "
+           "under an optional parent, several relations per parent, nesting, and constraints over each of the eight logical "
+           "operators at three positions; the emitted text is read by an interpreter of the target format written in the "
+           "checker (SXFM markers and or-clauses; propositional formulas under the usual precedences) and the satisfying "
+           "selections over all 2^n feature selections must equal the model's own; no feature may be missing. Not decided: "
+           "models larger than the abstract family; lexical rules of the propositional target for unusual names."),
+  "design_ref": "DESIGN.md §5 C10", "note": _NOTE + " The two target-format interpreters in sa/exports.py are part of the trusted base.",
+  "technique": "static analysis + translation validation: writer ASTs evaluated on abstract models, emitted text decided by independent target-format interpreters over all selections"},
+ "C12": {
+  "text": ("For every writer discovered by interface, transform() and everything it reaches is evaluated on frozen abstract "
+           "models: (PURE) any store into the model is a finding, snapshot unchanged; (RETURN) returned value = content "
+           "written; (ENCODING) every text-mode open() and every ANTLR FileStream on write and read-back paths names UTF-8 "
+           "(defaults read from the dependency's source); (DETERMINISM) the evaluator imposes both extreme iteration orders "
+           "on every set - differing output means dependence on PYTHONHASHSEED; calls of clock/random/environment/locale/"
+           "default-encoding sources reachable from transform() are findings; repeated calls identical. Not decided: "
+           "process-state channels other than the listed ones (CPython dict order, float repr, json defaults assumed "
+           "process-independent)."),
+  "design_ref": "DESIGN.md §5 C12", "note": _NOTE,
+  "technique": "static analysis: effect analysis over frozen abstract models, set-iteration-order sensitivity by dual evaluation, who-may-call check for nondeterministic sources, encoding arguments of every stream"},
 }
